@@ -334,6 +334,8 @@ def run(ctx) -> None:
             shapes.check_passthrough(ctx, "R1", fq, "vcs.assert_not_dirty", {"filepaths": FILESET, "allow_dirty": "allow_dirty"})
     shapes.check_passthrough(ctx, "R1", "cli.update", "cli._update", {"allow_dirty": "allow_dirty", "cfg": "cfg"})
 
+    assert_not_dirty_eval(ctx, "R1")
+
     # ------------------------------------------------------------------ R2
     a_fn = prog.function("vcs.assert_not_dirty")
     ctx.visit(a_fn.fq)
@@ -401,109 +403,204 @@ def run(ctx) -> None:
     # ------------------------------------------------------------------ R3 / R4
     s_fn = prog.function("vcs.VCSAPI.status")
     ctx.visit(s_fn.fq)
-    line, fields, ret_elt, ifs = _line_var_and_fields(ctx, s_fn)
-    req = "required_files"
-    ctx.require(req in s_fn.params, "VCSAPI.status lost its required_files parameter")
-    # which names carry the status columns / the path?  decided from the filter + the returned element
-    path_d = _classify_extraction(ret_elt, line, fields)
-    what = "VCSAPI.status: returned path is a fixed-column slice of the status line"
-    if path_d["kind"] == "split":
-        sep = path_d["sep"]
-        if sep is None or (isinstance(sep, str) and sep.strip() == ""):
-            ctx.bad("R3", "vcs.VCSAPI.status: porcelain line split on a delimiter that occurs inside the status columns",
-                    f"`{path_d['text']}` separates status and path at the first {sep!r}; in `git status --porcelain` the first status "
-                    f"column is a space for unstaged changes, so `' M setup.py'` yields status '' and path 'M setup.py' - "
-                    f"a dirty pattern file is not recognised under --allow-dirty",
-                    loc=s_fn.loc(ret_elt), witness={"line": " M setup.py", "parsed_path": "M setup.py", "expected_path": "setup.py"}, what=what)
-        else:
-            raise AnalysisError(f"C11/R3: split on {sep!r} not enumerated")
-    elif path_d["kind"] == "slice":
-        good = path_d["hi"] is None and ((path_d["lo"] == 2 and path_d["strip"]) or path_d["lo"] == 3)
-        ctx.check("R3", good, what + f" [line[{path_d['lo']}:], strip={path_d['strip']}]",
-                  "vcs.VCSAPI.status: path column range does not fit the porcelain grammar",
-                  f"path is line[{path_d['lo']}:{path_d['hi']}] (strip={path_d['strip']}); the path starts at column 3 (git) / 2 (hg)",
-                  loc=s_fn.loc(ret_elt), witness={"line": " M setup.py"})
-        if path_d["lo"] == 3:
-            ctx.observe("VCSAPI.status: path taken from column 3 - correct for git, drops a character for hg (outside C11's quantifier)")
-    else:
-        ctx.bad("R3", "vcs.VCSAPI.status: whole status line returned as path", "the returned element is the line itself",
-                loc=s_fn.loc(ret_elt), what=what)
-
-    # filter
-    ctx.floor("R4", "filter conditions in VCSAPI.status", len(ifs), 1)
-    status_ok = True
-
-    def classify(leaf: ast.AST) -> T.Tuple[str, bool]:
-        nonlocal status_ok
-        if isinstance(leaf, ast.Compare) and len(leaf.ops) == 1:
-            op = leaf.ops[0]
-            l, r = leaf.left, leaf.comparators[0]
-            if isinstance(op, (ast.In, ast.NotIn)) and unparse(r) == req:
-                d = _classify_extraction(l, line, fields)
-                same_as_ret = d == path_d or (d["kind"] == path_d["kind"] and d.get("lo") == path_d.get("lo") and d.get("index") == path_d.get("index"))
-                if not same_as_ret:
-                    raise AnalysisError("C11/R4: membership is tested on a different field than the one returned")
-                if not (d.get("strip") or d["kind"] == "slice" and d.get("lo") == 3):
-                    # the tested text would keep the separator column
-                    raise AnalysisError("C11/R4: membership tested on an unstripped field")
-                return "R", isinstance(op, ast.In)
-            if isinstance(op, (ast.Eq, ast.NotEq)):
-                c, e = (r, l) if isinstance(r, ast.Constant) else (l, r)
-                if isinstance(c, ast.Constant) and isinstance(c.value, str):
-                    d = _classify_extraction(e, line, fields)
-                    if d["kind"] == "split":
-                        status_ok = status_ok and d.get("index") == 0
-                    elif d["kind"] == "slice":
-                        status_ok = status_ok and d["lo"] == 0 and d["hi"] == 2
-                    else:
-                        status_ok = False
-                    if c.value.strip() != GIT_UNTRACKED:
-                        return f"status=={c.value!r}", isinstance(op, ast.Eq)
-                    return "U", isinstance(op, ast.Eq)
-        # `any(x == r for r in required)` is membership spelled out
-        if isinstance(leaf, ast.Call) and unparse(leaf.func) == "any" and len(leaf.args) == 1 and isinstance(leaf.args[0], ast.GeneratorExp) \
-                and len(leaf.args[0].generators) == 1 and unparse(leaf.args[0].generators[0].iter) == req and not leaf.args[0].generators[0].ifs:
-            g = leaf.args[0].generators[0]
-            cs = shapes.compare_shape(leaf.args[0].elt)
-            if cs and cs[0] == "==" and isinstance(g.target, ast.Name) and g.target.id in (unparse(cs[1]), unparse(cs[2])):
-                other = cs[2] if unparse(cs[1]) == g.target.id else cs[1]
-                return classify(ast.Compare(left=other, ops=[ast.In()], comparators=[ast.Name(id=req, ctx=ast.Load())]))
-        if any(isinstance(x, ast.Name) and x.id == req for x in ast.walk(leaf)):
-            ctx.bad("R4", "vcs.VCSAPI.status: an untracked entry counts as a pattern file without being equal to one",
-                    f"`{unparse(leaf)[:90]}` is not exact membership in `{req}`: an untracked file whose name merely resembles a configured path is "
-                    f"reported as dirty pattern file (update aborts under --allow-dirty), or a real one is missed",
-                    loc=s_fn.loc(leaf) if hasattr(leaf, "lineno") else s_fn.loc(), witness={"status line": "?? README", "required_files": ["README.md"]},
-                    what="VCSAPI.status: pattern-file test is exact membership")
-            return "R~", True
-        raise AnalysisError(f"C11/R4: filter leaf not enumerated: `{unparse(leaf)}`")
-
-    keep = BF.true()
+    decided_status = status_eval(ctx, "R4")
     try:
-        for t in ifs:
-            keep = keep & shapes.bool_expr_bf(t, classify)
-    except AnalysisError as ex_leaf:
-        if "filter leaf not enumerated" not in str(ex_leaf):
-            raise
-        # decide the filter over the finite set of two-column status codes instead
-        _filter_by_enumeration(ctx, s_fn, ifs, line, fields, req)
-        keep = None
-    spec_keep = BF.var("R") | ~BF.var("U")
-    if keep is None:
-        keep = spec_keep
-    ctx.check("R4", keep.equiv(spec_keep),
-              f"VCSAPI.status keeps a line iff path in {req} or status != '??'  [extracted: {keep.to_dnf()}]",
-              "vcs.VCSAPI.status: filter differs from 'pattern file or not untracked'",
-              f"kept iff {keep.to_dnf()}; required R | !U (R = path in {req}, U = status == '??')",
-              loc=s_fn.loc(ifs[0]), witness=keep.diff_witness(spec_keep))
-    ctx.check("R3", status_ok, "VCSAPI.status: the status field compared with '??' is the first two columns / first split field",
-              "vcs.VCSAPI.status: status comparison uses the wrong columns", "status field is not line[:2]", loc=s_fn.loc(ifs[0]))
-    # git's untracked marker is what the template's grammar says
-    tmpl = prog.const("vcs", "VCS_SUBCOMMANDS_BY_NAME")
-    ctx.check("R3", tmpl["git"].get("status", "").split()[:3] == ["git", "status", "--porcelain"],
-              "git status template is `git status --porcelain` (the grammar the parser is checked against)",
-              "vcs template git/status is not the porcelain format", f"{tmpl['git'].get('status')!r}", loc="src/bumpver/vcs.py")
-    if "hg" in tmpl:
-        ctx.observe("hg marks untracked files with '?', the filter compares with '??' (hg is outside C11's quantifier)")
+        line, fields, ret_elt, ifs = _line_var_and_fields(ctx, s_fn)
+        req = "required_files"
+        ctx.require(req in s_fn.params, "VCSAPI.status lost its required_files parameter")
+        # which names carry the status columns / the path?  decided from the filter + the returned element
+        path_d = _classify_extraction(ret_elt, line, fields)
+        what = "VCSAPI.status: returned path is a fixed-column slice of the status line"
+        if path_d["kind"] == "split":
+            sep = path_d["sep"]
+            if sep is None or (isinstance(sep, str) and sep.strip() == ""):
+                ctx.bad("R3", "vcs.VCSAPI.status: porcelain line split on a delimiter that occurs inside the status columns",
+                        f"`{path_d['text']}` separates status and path at the first {sep!r}; in `git status --porcelain` the first status "
+                        f"column is a space for unstaged changes, so `' M setup.py'` yields status '' and path 'M setup.py' - "
+                        f"a dirty pattern file is not recognised under --allow-dirty",
+                        loc=s_fn.loc(ret_elt), witness={"line": " M setup.py", "parsed_path": "M setup.py", "expected_path": "setup.py"}, what=what)
+            else:
+                raise AnalysisError(f"C11/R3: split on {sep!r} not enumerated")
+        elif path_d["kind"] == "slice":
+            good = path_d["hi"] is None and ((path_d["lo"] == 2 and path_d["strip"]) or path_d["lo"] == 3)
+            ctx.check("R3", good, what + f" [line[{path_d['lo']}:], strip={path_d['strip']}]",
+                      "vcs.VCSAPI.status: path column range does not fit the porcelain grammar",
+                      f"path is line[{path_d['lo']}:{path_d['hi']}] (strip={path_d['strip']}); the path starts at column 3 (git) / 2 (hg)",
+                      loc=s_fn.loc(ret_elt), witness={"line": " M setup.py"})
+            if path_d["lo"] == 3:
+                ctx.observe("VCSAPI.status: path taken from column 3 - correct for git, drops a character for hg (outside C11's quantifier)")
+        else:
+            ctx.bad("R3", "vcs.VCSAPI.status: whole status line returned as path", "the returned element is the line itself",
+                    loc=s_fn.loc(ret_elt), what=what)
 
+        # filter
+        ctx.floor("R4", "filter conditions in VCSAPI.status", len(ifs), 1)
+        status_ok = True
+
+        def classify(leaf: ast.AST) -> T.Tuple[str, bool]:
+            nonlocal status_ok
+            if isinstance(leaf, ast.Compare) and len(leaf.ops) == 1:
+                op = leaf.ops[0]
+                l, r = leaf.left, leaf.comparators[0]
+                if isinstance(op, (ast.In, ast.NotIn)) and unparse(r) == req:
+                    d = _classify_extraction(l, line, fields)
+                    same_as_ret = d == path_d or (d["kind"] == path_d["kind"] and d.get("lo") == path_d.get("lo") and d.get("index") == path_d.get("index"))
+                    if not same_as_ret:
+                        raise AnalysisError("C11/R4: membership is tested on a different field than the one returned")
+                    if not (d.get("strip") or d["kind"] == "slice" and d.get("lo") == 3):
+                        # the tested text would keep the separator column
+                        raise AnalysisError("C11/R4: membership tested on an unstripped field")
+                    return "R", isinstance(op, ast.In)
+                if isinstance(op, (ast.Eq, ast.NotEq)):
+                    c, e = (r, l) if isinstance(r, ast.Constant) else (l, r)
+                    if isinstance(c, ast.Constant) and isinstance(c.value, str):
+                        d = _classify_extraction(e, line, fields)
+                        if d["kind"] == "split":
+                            status_ok = status_ok and d.get("index") == 0
+                        elif d["kind"] == "slice":
+                            status_ok = status_ok and d["lo"] == 0 and d["hi"] == 2
+                        else:
+                            status_ok = False
+                        if c.value.strip() != GIT_UNTRACKED:
+                            return f"status=={c.value!r}", isinstance(op, ast.Eq)
+                        return "U", isinstance(op, ast.Eq)
+            # `any(x == r for r in required)` is membership spelled out
+            if isinstance(leaf, ast.Call) and unparse(leaf.func) == "any" and len(leaf.args) == 1 and isinstance(leaf.args[0], ast.GeneratorExp) \
+                    and len(leaf.args[0].generators) == 1 and unparse(leaf.args[0].generators[0].iter) == req and not leaf.args[0].generators[0].ifs:
+                g = leaf.args[0].generators[0]
+                cs = shapes.compare_shape(leaf.args[0].elt)
+                if cs and cs[0] == "==" and isinstance(g.target, ast.Name) and g.target.id in (unparse(cs[1]), unparse(cs[2])):
+                    other = cs[2] if unparse(cs[1]) == g.target.id else cs[1]
+                    return classify(ast.Compare(left=other, ops=[ast.In()], comparators=[ast.Name(id=req, ctx=ast.Load())]))
+            if any(isinstance(x, ast.Name) and x.id == req for x in ast.walk(leaf)):
+                ctx.bad("R4", "vcs.VCSAPI.status: an untracked entry counts as a pattern file without being equal to one",
+                        f"`{unparse(leaf)[:90]}` is not exact membership in `{req}`: an untracked file whose name merely resembles a configured path is "
+                        f"reported as dirty pattern file (update aborts under --allow-dirty), or a real one is missed",
+                        loc=s_fn.loc(leaf) if hasattr(leaf, "lineno") else s_fn.loc(), witness={"status line": "?? README", "required_files": ["README.md"]},
+                        what="VCSAPI.status: pattern-file test is exact membership")
+                return "R~", True
+            raise AnalysisError(f"C11/R4: filter leaf not enumerated: `{unparse(leaf)}`")
+
+        keep = BF.true()
+        try:
+            for t in ifs:
+                keep = keep & shapes.bool_expr_bf(t, classify)
+        except AnalysisError as ex_leaf:
+            if "filter leaf not enumerated" not in str(ex_leaf):
+                raise
+            # decide the filter over the finite set of two-column status codes instead
+            _filter_by_enumeration(ctx, s_fn, ifs, line, fields, req)
+            keep = None
+        spec_keep = BF.var("R") | ~BF.var("U")
+        if keep is None:
+            keep = spec_keep
+        ctx.check("R4", keep.equiv(spec_keep),
+                  f"VCSAPI.status keeps a line iff path in {req} or status != '??'  [extracted: {keep.to_dnf()}]",
+                  "vcs.VCSAPI.status: filter differs from 'pattern file or not untracked'",
+                  f"kept iff {keep.to_dnf()}; required R | !U (R = path in {req}, U = status == '??')",
+                  loc=s_fn.loc(ifs[0]), witness=keep.diff_witness(spec_keep))
+        ctx.check("R3", status_ok, "VCSAPI.status: the status field compared with '??' is the first two columns / first split field",
+                  "vcs.VCSAPI.status: status comparison uses the wrong columns", "status field is not line[:2]", loc=s_fn.loc(ifs[0]))
+        # git's untracked marker is what the template's grammar says
+        tmpl = prog.const("vcs", "VCS_SUBCOMMANDS_BY_NAME")
+        ctx.check("R3", tmpl["git"].get("status", "").split()[:3] == ["git", "status", "--porcelain"],
+                  "git status template is `git status --porcelain` (the grammar the parser is checked against)",
+                  "vcs template git/status is not the porcelain format", f"{tmpl['git'].get('status')!r}", loc="src/bumpver/vcs.py")
+        if "hg" in tmpl:
+            ctx.observe("hg marks untracked files with '?', the filter compares with '??' (hg is outside C11's quantifier)")
+
+    except AnalysisError:
+        if not decided_status:
+            raise
+        ctx.observe("VCSAPI.status: the comprehension-shaped rules are not applicable to this spelling; decided by evaluating the function (R4)")
     # ------------------------------------------------------------------ R5
     vcs_marker_rule(ctx, "R5")
+
+
+def status_eval(ctx, rule: str) -> bool:
+    """VCSAPI.status evaluated on every subset of six porcelain lines (unstaged, staged, deleted, untracked, untracked but
+    required, untracked with a blank in its name) and a required set: a line is reported iff it is not untracked or its path is
+    required; paths are the text after the two status columns, stripped; listing order is kept."""
+    import itertools
+    from sa.model import CannotFold, EvalError
+    prog = ctx.prog
+    fn = prog.function("vcs.VCSAPI.status")
+    pool = [" M a.txt", "A  b.txt", " D gone.txt", "?? new.txt", "?? req.txt", "?? sub dir/x y.txt"]
+    required = {"req.txt", "a.txt"}
+    wrong: T.List[str] = []
+    n = 0
+    try:
+        for k in range(len(pool) + 1):
+            for subset in itertools.combinations(pool, k):
+                out = "".join(l + "\n" for l in subset)
+                env = {fn.params[1] if len(fn.params) > 1 else "required_files": set(required), "__strict__": True, "__stubs__": {fn.params[0]: lambda f, node, out=out: out}}
+                try:
+                    got, _ys = prog.run_body(fn, env)
+                except EvalError as ex:
+                    got = f"raises: {ex}"
+                want = [l[2:].strip() for l in subset if l[:2] != "??" or l[2:].strip() in required]
+                n += 1
+                if (list(got) if isinstance(got, (list, tuple)) else got) != want and len(wrong) < 4:
+                    wrong.append(f"status lines {list(subset)} -> {got}, expected {want}")
+    except (CannotFold, TypeError, AttributeError, KeyError, ValueError, IndexError) as ex:
+        ctx.observe(f"vcs.VCSAPI.status not evaluated ({type(ex).__name__}: {str(ex)[:80]})")
+        return False
+    ctx.check(rule, not wrong, f"VCSAPI.status reports every changed tracked file and every untracked required file ({n} listings evaluated)",
+              "vcs.VCSAPI.status: a dirty file is not reported (or an untracked file that carries no pattern is)", "; ".join(wrong[:2]), loc=fn.loc(),
+              witness={"status": "?? req.txt together with  M a.txt"})
+    return True
+
+
+def assert_not_dirty_eval(ctx, rule: str) -> None:
+    """vcs.assert_not_dirty evaluated with an abstract VCS: it asks status for exactly the configured paths (a dot-file such as
+    .bumpver.toml under its own name) and ends the process iff something is dirty without --allow-dirty, or a dirty file is one
+    of the configured paths - whatever --allow-dirty says."""
+    from sa.model import Abstract, CannotFold, EvalError
+    prog = ctx.prog
+    fn = prog.function("vcs.assert_not_dirty")
+    ctx.visit(fn.fq)
+    configured = {".bumpver.toml", "src/a.py", "./README.md"}
+
+    class Exit(Exception):
+        pass
+
+    def sys_exit(f: T.Any, node: ast.Call) -> None:
+        raise Exit()
+
+    class Api(Abstract):
+        name = "git"
+
+        def __init__(self, dirty: T.List[str]):
+            self.dirty, self.asked = dirty, []
+
+        def status(self, *a: T.Any, **k: T.Any) -> T.List[str]:
+            self.asked.append(a[0] if a else k.get("required_files"))
+            return list(self.dirty)
+    wrong: T.List[str] = []
+    n = 0
+    try:
+        for dirty in ([], [".bumpver.toml"], ["other.txt"], ["src/a.py", "other.txt"], ["./README.md"], ["bumpver.toml"]):
+            for allow in (False, True):
+                api = Api(dirty)
+                env = dict(zip(fn.params, (api, set(configured), allow)))
+                env.update({"__strict__": True, "__stubs__": {"sys.exit": sys_exit}})
+                try:
+                    prog.run_body(fn, env)
+                    exited = False
+                except Exit:
+                    exited = True
+                except EvalError as ex:
+                    wrong.append(f"dirty {dirty}: {ex}")
+                    continue
+                want = bool(dirty and not allow) or bool(set(dirty) & configured)
+                n += 1
+                if exited != want:
+                    wrong.append(f"dirty {dirty}, allow_dirty={allow}: {'aborts' if exited else 'goes on'}")
+                if api.asked and api.asked[0] != configured:
+                    wrong.append(f"status is asked for {sorted(api.asked[0]) if api.asked[0] is not None else None}, configured {sorted(configured)}")
+    except (CannotFold, TypeError, AttributeError, KeyError, ValueError, IndexError) as ex:
+        ctx.observe(f"vcs.assert_not_dirty not evaluated ({type(ex).__name__}: {str(ex)[:80]})")
+        return
+    ctx.check(rule, not wrong, f"assert_not_dirty aborts iff dirty without --allow-dirty or a configured file is dirty; status is asked for the configured paths as given ({n} cases evaluated)",
+              "vcs.assert_not_dirty: a dirty pattern file does not stop the update (or the configured paths are altered before the comparison)", "; ".join(sorted(set(wrong))[:3]), loc=fn.loc(),
+              witness={"file": ".bumpver.toml"})
